@@ -601,9 +601,10 @@ package core
 //@   ensures d != nil
 
 //@ func (clientCodec).Decode
-//@   prop C04 C11
+//@   prop C04 C11 C08
 //@   havoc
 //@   requires context != nil
+//@   atcall FreeDecoder [only_the_reserved_word_means_timeout] err == ErrTimeout ==> errstr == "timeout" || same(err, arg0.Error)
 //@   modifies ghost.rpos[*], ghost.rfailed[*], ghost.dict_has[*], ghost.dict_int[*]
 //@   loop 1 invariant 0 <= i && len(results) == n && len(returnType) == n && count >= 0 && decoder != nil && decoder.reader == nil && 0 <= decoder.head && decoder.head <= decoder.tail && decoder.tail <= len(decoder.buf)
 //@   loop 2 invariant 0 <= i && len(results) == n && len(returnType) == n
